@@ -22,7 +22,7 @@ WORKERS = {'quick': 12, 'thorough': 14}
 BUDGET_S = {'quick': 90, 'thorough': 600}
 NUMBA_THREADS = 2
 REQUIRED_COUNTERS = ['attacks_with_convergence', 'columns_vs_prefix_attack', 'points_checked', 'last_column_vs_scores', 'final_vs_no_convergence', 'observations',
-                     'step_larger_than_set', 'step_smaller_than_batch', 'step_not_dividing', 'multi_run_sequences', 'remainder_points']
+                     'step_larger_than_set', 'step_smaller_than_batch', 'step_not_dividing', 'multi_run_sequences', 'remainder_points', 'alignment_corner_cases']
 CLASSES = ['CPAAttack', 'DPAAttack', 'ANOVAAttack', 'NICVAttack', 'SNRAttack', 'MIAAttack', 'TemplateAttack', 'TemplateDPAAttack']
 CHEAP = ['CPAAttack', 'DPAAttack']
 RULE = ('a case = (attack class in 8, N in 1..120, convergence_step in 1..150 (smaller / equal / larger than the batch size and than N, dividing or not), '
@@ -46,12 +46,16 @@ def cases(tier, seed):
         for rel in ('step<batch', 'step=batch', 'step>batch', 'step>N', 'multi'):
             out.append(dict(gen='conv', klass=klass, rel=rel, sub=core.subseed('C08', seed, k), must=True))
             k += 1
+    for klass in ('CPAAttack', 'DPAAttack', 'TemplateAttack'):
+        for rel in ('aligned_total', 'run_ends_on_point', 'midstep_then_aligned'):
+            for r in range(6 if klass == 'CPAAttack' else 2):
+                out.append(dict(gen='conv', klass=klass, rel=rel, sub=core.subseed('C08a', seed, klass, rel, r), must=True))
     rs = np.random.default_rng(core.subseed('C08r', seed))
     n_rand = 500 if tier == 'quick' else 14000
     w = np.array([6 if c in CHEAP else (3 if c.startswith('Template') else 1) for c in CLASSES], dtype=float)
     w /= w.sum()
     for j in range(n_rand):
-        out.append(dict(gen='conv', klass=CLASSES[int(rs.choice(len(CLASSES), p=w))], rel=['step<batch', 'step=batch', 'step>batch', 'step>N', 'multi', 'any', 'any'][int(rs.integers(7))],
+        out.append(dict(gen='conv', klass=CLASSES[int(rs.choice(len(CLASSES), p=w))], rel=['step<batch', 'step=batch', 'step>batch', 'step>N', 'multi', 'any', 'any', 'aligned_total', 'run_ends_on_point', 'midstep_then_aligned'][int(rs.integers(10))],
                         sub=int(rs.integers(2 ** 62))))
     return out
 
@@ -84,7 +88,34 @@ def run_case(case):
     nruns = int(rng.choice([2, 3])) if rel == 'multi' else int(rng.choice([1, 1, 1, 2]))
     if nruns > N:
         nruns = 1
-    cuts = [0] + (sorted(rng.choice(np.arange(1, N), size=nruns - 1, replace=False).tolist()) if nruns > 1 else []) + [N]
+    cuts = None
+    if rel in ('aligned_total', 'run_ends_on_point', 'midstep_then_aligned'):
+        # alignment corner cases: the total (or a run) is an exact multiple of the step while the batches are not aligned on it
+        step = int(rng.integers(2, 31))
+        mult = int(rng.integers(1, max(2, 120 // step) + 1))
+        N = min(step * mult, 120) // step * step
+        ks = [kk for kk in range(2, step + 1) if step % kk]          # step // batch = kk with a remainder: batches of int(step / kk) miss the multiples of the step
+        if ks and rng.random() < 0.7:
+            kk = int(ks[int(rng.integers(len(ks)))])
+            bs = max(1, step // kk)
+        else:
+            bs = int(rng.integers(1, step + 3))
+        if rel == 'aligned_total':
+            nruns = 1
+        elif rel == 'run_ends_on_point':
+            if N // step < 2:
+                N = 2 * step
+            first = step * int(rng.integers(1, N // step))
+            cuts = [0, first, N]
+            nruns = 2
+        else:
+            if N < 2:
+                N = 2 * step
+            first = int(rng.integers(1, N))
+            cuts = [0, first, N]
+            nruns = 2
+    if cuts is None:
+        cuts = [0] + (sorted(rng.choice(np.arange(1, N), size=nruns - 1, replace=False).tolist()) if nruns > 1 else []) + [N]
     precision = ['float32', 'float64'][int(rng.integers(2))]
     if step > N:
         t.count('step_larger_than_set')
@@ -94,6 +125,8 @@ def run_case(case):
         t.count('step_not_dividing')
     if nruns > 1:
         t.count('multi_run_sequences')
+    if rel in ('aligned_total', 'run_ends_on_point', 'midstep_then_aligned'):
+        t.count('alignment_corner_cases')
     info = dict(klass=klass, N=N, T=T, guesses=G, words=W, batch=bs, step=step, runs=cuts, precision=precision)
 
     if template:
